@@ -35,6 +35,13 @@ func ghost_closed(c chan *msgDone) bool { panic("ghost") }
 //@     (forall n string :: { vcHas(s.boxes, n) } vcHas(s.boxes, n) ==> spec_mboxOK(s.boxes[n]) && s.boxes[n].name == n) &&
 //@     (forall n1 string, n2 string :: { vcHas(s.boxes, n1), vcHas(s.boxes, n2) } vcHas(s.boxes, n1) && vcHas(s.boxes, n2) && n1 != n2 ==> !vcSameMap(s.boxes[n1].messages, s.boxes[n2].messages))
 
+// C09 (lock discipline): the mailbox table is guarded by the store's mutex, a mailbox's message map
+// and counters by the mailbox's RWMutex.
+//@ guard Store.boxes by Mutex
+//@ guard mbox.messages by RWMutex
+//@ guard mbox.first by RWMutex
+//@ guard mbox.last by RWMutex
+
 //@ func (*Store).withMailbox
 //@   inline
 //@ func (*Store).enforcerDeliver
@@ -77,7 +84,7 @@ func ghost_closed(c chan *msgDone) bool { panic("ghost") }
 //@      spec_newest(s.boxes[mailbox], m.(*Message))
 //@   ensures[untouched] forall n string :: { vcHas(s.boxes, n) } old(vcHas(s.boxes, n)) ==> vcHas(s.boxes, n) && s.boxes[n] == old(s.boxes[n])
 //@   ensures spec_storeOK(s)
-//@   serves C07 C14
+//@   serves C07 C14 C09
 
 // GetMessages: exactly the messages of the mailbox, oldest first.
 //@ pred spec_inBox(mb *mbox, v storage.Message) bool = v != nil && v.(*Message) != nil &&
@@ -105,7 +112,7 @@ func ghost_closed(c chan *msgDone) bool { panic("ghost") }
 //@   ensures[covers] spec_covers(s.boxes[mailbox], ms)
 //@   ensures[oldestFirst] forall i int, j int :: { ms[i], ms[j] } 0 <= i && i < j && j < len(ms) ==> ms[i].(*Message).index <= ms[j].(*Message).index
 //@   ensures[untouched] forall n string :: { vcHas(s.boxes, n) } old(vcHas(s.boxes, n)) ==> vcHas(s.boxes, n) && s.boxes[n] == old(s.boxes[n])
-//@   serves C07
+//@   serves C07 C09
 
 // MarkSeen: sets the seen flag of exactly that message; a message that does not exist is ErrNotExist.
 //@ func (*Store).MarkSeen
@@ -114,7 +121,7 @@ func ghost_closed(c chan *msgDone) bool { panic("ghost") }
 //@   ensures spec_storeOK(s)
 //@   ensures[notExist] !(old(vcHas(s.boxes, mailbox)) && old(vcHas(s.boxes[mailbox].messages, id))) ==> ret == storage.ErrNotExist
 //@   ensures[marks] old(vcHas(s.boxes, mailbox)) && old(vcHas(s.boxes[mailbox].messages, id)) ==> ret == nil && s.boxes[mailbox].messages[id].seen
-//@   serves C07
+//@   serves C07 C09
 
 // removeMessage: removes exactly that key (if present) and emits one deleted event for it.
 func ghost_nemitted(eb *extension.AsyncEventBroker[event.MessageMetadata]) int { panic("ghost") }
@@ -135,7 +142,7 @@ func ghost_emitted(eb *extension.AsyncEventBroker[event.MessageMetadata]) vcSeq[
 //@   ensures[eventIdentity C16] ret != nil ==>
 //@      vcSeqAt(ghost_emitted(&s.extHost.Events.AfterMessageDeleted), old(ghost_nemitted(&s.extHost.Events.AfterMessageDeleted))).ID == id &&
 //@      vcSeqAt(ghost_emitted(&s.extHost.Events.AfterMessageDeleted), old(ghost_nemitted(&s.extHost.Events.AfterMessageDeleted))).Mailbox == mailbox
-//@   serves C07 C16
+//@   serves C07 C16 C09
 
 // RemoveMessage: a message that does not exist is ErrNotExist.
 //@ func (*Store).RemoveMessage
@@ -144,7 +151,7 @@ func ghost_emitted(eb *extension.AsyncEventBroker[event.MessageMetadata]) vcSeq[
 //@   ensures spec_storeOK(s)
 //@   ensures[notExist] !(old(vcHas(s.boxes, mailbox)) && old(vcHas(s.boxes[mailbox].messages, id))) ==> ret == storage.ErrNotExist
 //@   ensures[removed] old(vcHas(s.boxes, mailbox)) && old(vcHas(s.boxes[mailbox].messages, id)) ==> ret == nil && !vcHas(s.boxes[mailbox].messages, id)
-//@   serves C07 C16
+//@   serves C07 C16 C09
 
 // AddMessage: the new message gets the next index of its mailbox as id (never used before), is
 // stored with the metadata and content it was given; with a cap, the oldest messages are evicted
@@ -176,7 +183,7 @@ func ghost_emitted(eb *extension.AsyncEventBroker[event.MessageMetadata]) vcSeq[
 //@      vcSeqAt(ghost_emitted(&s.extHost.Events.AfterMessageDeleted), old(ghost_nemitted(&s.extHost.Events.AfterMessageDeleted)) + i).ID == evicted[i].id &&
 //@      vcSeqAt(ghost_emitted(&s.extHost.Events.AfterMessageDeleted), old(ghost_nemitted(&s.extHost.Events.AfterMessageDeleted)) + i).Mailbox == evicted[i].mailbox
 //@   loop 1: decreases len(evicted) - ridx
-//@   serves C16 C08
+//@   serves C16 C08 C09
 
 //@ func (*Store).AddMessage
 //@   requires spec_storeOK(s) && message != nil
@@ -196,7 +203,7 @@ func ghost_emitted(eb *extension.AsyncEventBroker[event.MessageMetadata]) vcSeq[
 //@      ghost_nemitted(&s.extHost.Events.AfterMessageDeleted) - old(ghost_nemitted(&s.extHost.Events.AfterMessageDeleted)) ==
 //@         old(len(s.boxes[message.Mailbox()].messages)) + 1 - len(s.boxes[message.Mailbox()].messages)
 //@   ensures[noCapNoEviction C08] err == nil && s.cap <= 0 && old(vcHas(s.boxes, message.Mailbox())) ==> s.boxes[message.Mailbox()].first == old(s.boxes[message.Mailbox()].first)
-//@   serves C07 C08 C01 C16
+//@   serves C07 C08 C01 C16 C09
 
 // PurgeMessages: the mailbox becomes empty; one deleted event per message that was in it, each
 // carrying the mailbox name and the id of one of those messages.
@@ -223,7 +230,7 @@ func ghost_emitted(eb *extension.AsyncEventBroker[event.MessageMetadata]) vcSeq[
 //@      old(ghost_nemitted(&s.extHost.Events.AfterMessageDeleted)) <= j && j < ghost_nemitted(&s.extHost.Events.AfterMessageDeleted) ==>
 //@         vcSeqAt(ghost_emitted(&s.extHost.Events.AfterMessageDeleted), j).Mailbox == mailbox &&
 //@         vcHas(messages, vcSeqAt(ghost_emitted(&s.extHost.Events.AfterMessageDeleted), j).ID)
-//@   serves C07 C16
+//@   serves C07 C16 C09
 
 // VisitMailboxes applies f to the message list of each mailbox that exists when the visit starts.
 //@ func (*Store).VisitMailboxes
@@ -285,4 +292,4 @@ func spec_isMsg(v any) bool { m, ok := v.(*Message); return ok && m != nil }
 //@   loop 2: invariant[accounting C08] curSize == ghost_lsum(all)
 //@   loop 2: invariant[oldestFirst C08] ghost_lnonfront(all) == ghost_lmark(all)
 //@   loop 2: invariant[assumedLive] spec_enfLive(s, all)
-//@   serves C08
+//@   serves C08 C09
